@@ -11,6 +11,7 @@ import Driver.C02
 import Driver.C15
 import Driver.C07
 import Driver.C13
+import Driver.C18
 open Lean CKT CKT.Driver
 
 def dispatch (j : Json) : Except String Json := do
@@ -28,6 +29,7 @@ def dispatch (j : Json) : Except String Json := do
   else if op.startsWith "c15." then c15 op j
   else if op.startsWith "c07." then c07 op j
   else if op.startsWith "c13." then c13 op j
+  else if op.startsWith "c18." then c18 op j
   else throw s!"unknown op {op}"
 
 def handle (line : String) : String :=
